@@ -93,6 +93,37 @@ example : (rotMat (⟨3/5, 4/5, 5/13, 12/13, 8/17, 15/17⟩ : Angles Rat)).det =
     V3.det3 (⟨1, 0, 0⟩ : V3 Rat) ⟨0, 1, 0⟩ ⟨0, 0, 1⟩ = 1 := by
   simp only [rotMat]; v3simp; norm_num
 
+/-- **C06_congruent** — the "so" of the statement, said directly about two copies: two residues of the
+same type, backmapped with the same factor `f` but with their own centres and their own angle triples,
+are congruent (all pairwise squared distances agree) and same-handed (all signed volumes of four atoms
+agree) — for every pair of angle triples on the unit circles. -/
+theorem C06_congruent (a₁ a₂ : Angles K)
+    (h₁ : a₁.cx * a₁.cx + a₁.sx * a₁.sx = 1 ∧ a₁.cy * a₁.cy + a₁.sy * a₁.sy = 1 ∧ a₁.cz * a₁.cz + a₁.sz * a₁.sz = 1)
+    (h₂ : a₂.cx * a₂.cx + a₂.sx * a₂.sx = 1 ∧ a₂.cy * a₂.cy + a₂.sy * a₂.sy = 1 ∧ a₂.cz * a₂.cz + a₂.sz * a₂.sz = 1)
+    (f : K) (cg₁ cg₂ : V3 K) :
+    let p₁ := fun t => cg₁ + V3.smul f ((rotMat a₁).mulVec t)
+    let p₂ := fun t => cg₂ + V3.smul f ((rotMat a₂).mulVec t)
+    (∀ u v : V3 K, V3.normSq (p₁ u - p₁ v) = V3.normSq (p₂ u - p₂ v)) ∧
+    (∀ ta tb tc td : V3 K, V3.det3 (p₁ tb - p₁ ta) (p₁ tc - p₁ ta) (p₁ td - p₁ ta)
+        = V3.det3 (p₂ tb - p₂ ta) (p₂ tc - p₂ ta) (p₂ td - p₂ ta)) := by
+  obtain ⟨o₁, _, d₁⟩ := C06_proper a₁ h₁.1 h₁.2.1 h₁.2.2
+  obtain ⟨o₂, _, d₂⟩ := C06_proper a₂ h₂.1 h₂.2.1 h₂.2.2
+  refine ⟨fun u v => ?_, fun ta tb tc td => ?_⟩
+  · exact ((C06_rigid _ o₁ f cg₁ u v).2).trans ((C06_rigid _ o₂ f cg₂ u v).2).symm
+  · exact ((C06_handed _ d₁ f cg₁ ta tb tc td).2).trans ((C06_handed _ d₂ f cg₂ ta tb tc td).2).symm
+
+/-- non-vacuity: two different rational rotations, two centres -/
+example : let a₁ : Angles Rat := ⟨3/5, 4/5, 5/13, 12/13, 8/17, 15/17⟩
+    let a₂ : Angles Rat := ⟨0, 1, 1, 0, 4/5, 3/5⟩
+    (a₂.cx * a₂.cx + a₂.sx * a₂.sx = 1 ∧ a₂.cy * a₂.cy + a₂.sy * a₂.sy = 1 ∧ a₂.cz * a₂.cz + a₂.sz * a₂.sz = 1) ∧
+    rotMat a₁ ≠ rotMat a₂ := by
+  refine ⟨by norm_num, ?_⟩
+  intro h
+  have := congrArg (fun m => m.r0.x) h
+  simp only [rotMat] at this
+  revert this
+  v3simp; norm_num
+
 /-- Centred: if the residue's atom names are distinct and are exactly the keys of the template, and the
 template vectors sum to zero (C15: templates have zero centre of geometry), then the placement succeeds,
 writes one coordinate per atom and these sum to `n · cg` — whatever the rotation and the factor. -/
